@@ -5,108 +5,17 @@
 //   copies = Box<Vec2<T>>, Box<Vec3<T>> (specialisations), the generic Box<V> on W2<T>, W3<T>
 //            (thin classes derived from Vec2/Vec3, same data as the specialisations) and on
 //            Vec4<T>, and Interval<T>;  T in {short,int,int64_t,float,double,half}.
-// Sub-checks here: point_membership, box_queries, clip_nearest, intersects_box,
-// empty_infinite.  c13_extend.cpp: extendBy histories and non-lattice (extreme) values.
-// c13_algo.cpp: closestPointOnBox, transform / affineTransform.
+// Sub-checks here: point_membership, box_queries, clip_nearest.  c13_pairs.cpp: intersects_box,
+// intersects_box_sampled, empty_infinite.  c13_extend.cpp: extendBy histories and non-lattice
+// (extreme) values.  c13_algo.cpp: closestPointOnBox, transform / affineTransform.
 //
 // Every copy is compared with the integer model case by case; where the model is exact,
 // agreement between the copies follows from that; where the statement leaves freedom
 // (majorAxis ties, center of an empty box) the copies are compared with each other directly
 // (keys "agree.*").
-#include "c13_common.h"
-#include <array>
+#include "c13_lattice.h"
 
 using namespace c13;
-
-// ------------------------------------------------------------------ per-thread lattice caches
-static const std::vector<std::array<int, 4>>&
-ipt_table (int D, int R)
-{
-    static thread_local std::map<int, std::vector<std::array<int, 4>>> m;
-    auto& v = m[D * 16 + R];
-    if (v.empty ())
-    {
-        uint64_t n = n_points (D, R);
-        v.resize (n);
-        for (uint64_t k = 0; k < n; ++k) decode_pt (k, D, R, v[k].data ());
-    }
-    return v;
-}
-template <class K> static const std::vector<typename K::P>&
-pt_table (int R)
-{
-    static thread_local std::vector<typename K::P> tab;
-    static thread_local int                        cr = -1;
-    if (cr != R)
-    {
-        const auto& ip = ipt_table (K::D, R);
-        tab.clear ();
-        for (auto& p: ip) tab.push_back (mkpt<K> (p.data ()));
-        cr = R;
-    }
-    return tab;
-}
-struct LTab
-{
-    std::vector<LBox>    b;
-    std::vector<uint8_t> inv;
-};
-static const LTab&
-lbox_table (int D, int R)
-{
-    static thread_local std::map<int, LTab> m;
-    LTab& t = m[D * 16 + R];
-    if (t.b.empty ())
-    {
-        uint64_t n = n_boxes (D, R);
-        t.b.resize (n);
-        t.inv.resize (n);
-        for (uint64_t k = 0; k < n; ++k) { decode_box (k, D, R, t.b[k]); t.inv[k] = m_empty (t.b[k], D); }
-    }
-    return t;
-}
-template <class K> static const std::vector<typename K::B>&
-box_table (int R)
-{
-    static thread_local std::vector<typename K::B> tab;
-    static thread_local int                        cr = -1;
-    if (cr != R)
-    {
-        const LTab& lt = lbox_table (K::D, R);
-        tab.clear ();
-        for (auto& b: lt.b) tab.push_back (mkbox<K> (b));
-        cr = R;
-    }
-    return tab;
-}
-
-// ------------------------------------------------------------------ registration helpers
-template <class K1, class K2, template <class, class> class Rn> static void
-add_one (VarTable& t, int Rq, int Rt)
-{
-    t.add (K1::name (), n_boxes (K1::D, Rq), n_boxes (K1::D, Rt), [Rq, Rt] (Ctx& c, uint64_t g, uint64_t l) { Rn<K1, K2>::run (c, g, l, c.thorough ? Rt : Rq); });
-}
-template <class T, template <class, class> class Rn, bool WI> static void
-add_dims (VarTable& t, const int (&R)[4][2])
-{
-    if constexpr (WI) add_one<IKind<T>, NoKind, Rn> (t, R[0][0], R[0][1]);
-    add_one<VKind<Vec2<T>>, VKind<W2<T>>, Rn> (t, R[1][0], R[1][1]);
-    add_one<VKind<Vec3<T>>, VKind<W3<T>>, Rn> (t, R[2][0], R[2][1]);
-    add_one<VKind<Vec4<T>>, NoKind, Rn> (t, R[3][0], R[3][1]);
-}
-template <template <class, class> class Rn, bool WI> static VarTable
-make_table (const int (&R)[4][2])
-{
-    VarTable t;
-#define X(T) add_dims<T, Rn, WI> (t, R);
-    C13_TYPES (X)
-#undef X
-    t.seal ();
-    return t;
-}
-// lattice radii {quick, thorough} for D = 1,2,3,4: box coordinates in -R..R, points in -(R+1)..R+1
-static const int R_MEMBERS[4][2] = {{3, 3}, {2, 2}, {2, 2}, {1, 2}};
-static const int R_PAIRS[4][2]   = {{3, 3}, {2, 2}, {1, 2}, {1, 1}};
 
 // ================================================================== point_membership
 enum { PC_INV, PC_INTERIOR, PC_BOUNDARY, PC_ADJ, PC_OUT, PC_N };
@@ -431,344 +340,5 @@ MON_SUB ([] (Ctx& c, uint64_t b, uint64_t e) { tab_clip ().run (c, b, e); }, "cl
     .chunked (64)
     .over ("clip and closestPointInBox = the nearest lattice point of the box (exact squared distances; per-axis brute force, cross-checked by full d-dimensional brute force for T=int): every non-empty lattice box x every lattice point, all Box copies and element types; empty boxes counted, not judged; non-trivial = point outside the box");
 
-// ================================================================== intersects_box
-// per-axis relation of two integer intervals by brute force over the lattice:
-// 0 = no common point, 1 = exactly one common point (touching), 2 = more
-static const struct Share1
-{
-    uint8_t t[7][7][7][7];
-    Share1 ()
-    {
-        for (int a = -3; a <= 3; ++a)
-            for (int b = -3; b <= 3; ++b)
-                for (int c = -3; c <= 3; ++c)
-                    for (int d = -3; d <= 3; ++d)
-                    {
-                        int n = 0;
-                        for (int x = -4; x <= 4; ++x) n += (a <= x && x <= b && c <= x && x <= d);
-                        t[a + 3][b + 3][c + 3][d + 3] = (uint8_t) std::min (n, 2);
-                    }
-    }
-} g_share1;
-// 0 disjoint, 1 touching, 2 overlapping (for two NON-EMPTY boxes; an empty box shares nothing)
-static inline int
-m_share (const LBox& a, const LBox& b, int D)
-{
-    int r = 2;
-    for (int x = 0; x < D; ++x) r = std::min<int> (r, g_share1.t[a.lo[x] + 3][a.hi[x] + 3][b.lo[x] + 3][b.hi[x] + 3]);
-    return r;
-}
-static const char* const share_name[3] = {"disjoint", "touching", "overlapping"};
-
-template <class K> static inline void
-pair_one (Ctx& c, uint64_t gidx, const LBox& A, const LBox& Bm, bool inverted, int share, const typename K::B& a, const typename K::B& b)
-{
-    const bool want = !inverted && share > 0;
-    const bool gab = a.intersects (b), gba = b.intersects (a);
-    if (gab == want && gba == want) return;
-    constexpr int D = K::D;
-    auto desc = [&] { return Obj ().kv ("a", lbox_str (A, D)).kv ("b", lbox_str (Bm, D)).kv ("a.intersects(b)", gab).kv ("b.intersects(a)", gba).kv ("sets_share_a_point", want).str (); };
-    if (inverted)
-    {
-        // the statement quantifies over inverted (= empty) boxes: an empty set shares no point with anything
-        c.fail ("intersects(box)." + K::name () + ":inverted_operand", gidx, desc);
-        if (gab != gba) c.fail ("intersects(box)." + K::name () + ":asymmetric_inverted_operand", gidx, desc);
-    }
-    else
-    {
-        c.fail ("intersects(box)." + K::name () + ":" + share_name[share], gidx, desc);
-        if (gab != gba) c.fail ("intersects(box)." + K::name () + ":asymmetric", gidx, desc);
-    }
-}
-template <class K1, class K2> struct Pairs
-{
-    static void run (Ctx& c, uint64_t gidx, uint64_t codeA, int R)
-    {
-        constexpr int  D   = K1::D;
-        constexpr bool two = !std::is_same<K2, NoKind>::value;
-        const LTab&    lt  = lbox_table (D, R);
-        const auto&    B1  = box_table<K1> (R);
-        using K2e          = std::conditional_t<two, K2, K1>;
-        const auto&    B2  = box_table<K2e> (R);
-        const LBox&    A   = lt.b[codeA];
-        const bool     invA = lt.inv[codeA];
-        uint64_t       cnt[4] = {0, 0, 0, 0};
-        const size_t   n = lt.b.size ();
-        for (size_t cb = codeA; cb < n; ++cb)
-        {
-            const bool inverted = invA || lt.inv[cb];
-            const int  share    = inverted ? 0 : m_share (A, lt.b[cb], D);
-            ++cnt[inverted ? 3 : share];
-            pair_one<K1> (c, gidx, A, lt.b[cb], inverted, share, B1[codeA], B1[cb]);
-            if constexpr (two) pair_one<K2e> (c, gidx, A, lt.b[cb], inverted, share, B2[codeA], B2[cb]);
-        }
-        c.eval ((n - codeA) * (two ? 4 : 2));
-        c.cls ("disjoint", cnt[0]);
-        c.cls ("touching", cnt[1]);
-        c.cls ("overlapping", cnt[2]);
-        c.cls ("inverted_operand", cnt[3]);
-        c.nontrivial_enum (cnt[0] + cnt[1] + cnt[3]);
-        if (codeA % 401 == 7)
-            c.sample (K1::name ().c_str (), [&] { return Obj ().kv ("a", lbox_str (A, D)).kv ("partners", (unsigned long long) (n - codeA)).kv ("touching", (unsigned long long) cnt[1]).kv ("overlapping", (unsigned long long) cnt[2]).str (); });
-    }
-};
-// random pairs from the larger lattice {-2..2}^d where the full square is too big for the tier
-template <class K1, class K2> struct PairsSampled
-{
-    static void run (Ctx& c, uint64_t gidx, uint64_t, int R)
-    {
-        constexpr int  D   = K1::D;
-        constexpr bool two = !std::is_same<K2, NoKind>::value;
-        Rng            r   = c.rng (gidx);
-        const uint64_t nb  = n_boxes (D, R);
-        uint64_t       cnt[4] = {0, 0, 0, 0};
-        for (int k = 0; k < 64; ++k)
-        {
-            LBox A, Bm;
-            uint64_t ca = r.u64 () % nb, cb = r.u64 () % nb;
-            decode_box (ca, D, R, A);
-            decode_box (cb, D, R, Bm);
-            if (k % 4 == 1) // bias towards non-inverted pairs (rare in high dimension)
-                for (int a = 0; a < D; ++a)
-                {
-                    if (A.hi[a] < A.lo[a]) std::swap (A.hi[a], A.lo[a]);
-                    if (Bm.hi[a] < Bm.lo[a]) std::swap (Bm.hi[a], Bm.lo[a]);
-                }
-            const bool inverted = m_empty (A, D) || m_empty (Bm, D);
-            const int  share    = inverted ? 0 : m_share (A, Bm, D);
-            ++cnt[inverted ? 3 : share];
-            pair_one<K1> (c, gidx, A, Bm, inverted, share, mkbox<K1> (A), mkbox<K1> (Bm));
-            if constexpr (two) pair_one<K2> (c, gidx, A, Bm, inverted, share, mkbox<K2> (A), mkbox<K2> (Bm));
-            c.nontrivial (hash_combine (hash_combine (ca, cb), hash_str (K1::name ().c_str ())));
-        }
-        c.eval (64 * (two ? 4 : 2));
-        c.cls ("disjoint", cnt[0]);
-        c.cls ("touching", cnt[1]);
-        c.cls ("overlapping", cnt[2]);
-        c.cls ("inverted_operand", cnt[3]);
-        c.cls ("sampled_pairs", 64);
-    }
-};
-template <class T> static void
-add_pairs_sampled (VarTable& t)
-{
-    // d=3, {-2..2}: sampled in quick (the full square runs in thorough); d=4, {-2..2}: sampled in both tiers
-    t.add ("sampled:" + VKind<Vec3<T>>::name (), 4096, 0, [] (Ctx& c, uint64_t g, uint64_t l) { PairsSampled<VKind<Vec3<T>>, VKind<W3<T>>>::run (c, g, l, 2); });
-    t.add ("sampled:" + VKind<Vec4<T>>::name (), 4096, 262144, [] (Ctx& c, uint64_t g, uint64_t l) { PairsSampled<VKind<Vec4<T>>, NoKind>::run (c, g, l, 2); });
-}
-static const VarTable&
-tab_pairs ()
-{
-    static const VarTable t = make_table<Pairs, true> (R_PAIRS);
-    return t;
-}
-MON_SUB ([] (Ctx& c, uint64_t b, uint64_t e) { tab_pairs ().run (c, b, e); }, "intersects_box", tab_pairs ().total (false), tab_pairs ().total (true))
-    .req ({"disjoint", "touching", "overlapping", "inverted_operand"})
-    .exh ()
-    .chunked (32)
-    .over ("intersects(box), both directions, against 'the two sets share a lattice point' (per-axis brute force; empty = inverted boxes share nothing): all unordered pairs of lattice boxes over {-3..3} (Interval), {-2..2}^2, {-1..1}^3 quick / {-2..2}^3 thorough, {-1..1}^4; all copies and element types; non-trivial = disjoint, touching or with an inverted operand");
-
-static const VarTable&
-tab_pairs_sampled ()
-{
-    static const VarTable t = [] {
-        VarTable t;
-#define X(T) add_pairs_sampled<T> (t);
-        C13_TYPES (X)
-#undef X
-        t.seal ();
-        return t;
-    }();
-    return t;
-}
-MON_SUB ([] (Ctx& c, uint64_t b, uint64_t e) { tab_pairs_sampled ().run (c, b, e); }, "intersects_box_sampled", tab_pairs_sampled ().total (false), tab_pairs_sampled ().total (true))
-    .req ({"disjoint", "touching", "overlapping", "inverted_operand", "sampled_pairs"})
-    .chunked (64)
-    .over ("as intersects_box on random pairs from the larger lattices whose full square does not fit the tier: {-2..2}^3 (quick only; enumerated in thorough) and {-2..2}^4 (both tiers), 64 pairs per index; distinct = hash of the pair");
-
-// ================================================================== empty_infinite
-template <class S> static std::vector<S>
-extreme_pool ()
-{
-    using L = std::numeric_limits<S>;
-    std::vector<S> v;
-    v.push_back (L::lowest ());
-    v.push_back (L::max ());
-    v.push_back (from_i<S> (-1));
-    v.push_back (from_i<S> (0));
-    v.push_back (from_i<S> (1));
-    if constexpr (is_int_v<S>)
-    {
-        v.push_back ((S) (L::lowest () + 1));
-        v.push_back ((S) (L::max () - 1));
-    }
-    else
-    {
-        v.push_back (L::denorm_min ());
-        v.push_back (-L::denorm_min ());
-        v.push_back (L::min ());
-        v.push_back (-from_i<S> (0)); // -0
-        if constexpr (std::is_floating_point<S>::value)
-        {
-            v.push_back (std::nextafter (L::lowest (), (S) 0));
-            v.push_back (std::nextafter (L::max (), (S) 0));
-        }
-    }
-    return v;
-}
-template <class S> static S
-near_extreme (bool upper)
-{
-    using L = std::numeric_limits<S>;
-    if constexpr (is_int_v<S>) return upper ? (S) (L::max () - 1) : (S) (L::lowest () + 1);
-    else if constexpr (std::is_floating_point<S>::value) return upper ? std::nextafter (L::max (), (S) 0) : std::nextafter (L::lowest (), (S) 0);
-    else return upper ? from_i<S> (60000) : from_i<S> (-60000);
-}
-template <class K> static const std::vector<typename K::P>&
-extreme_points ()
-{
-    static thread_local std::vector<typename K::P> pts;
-    if (pts.empty ())
-    {
-        auto     pool = extreme_pool<typename K::S> ();
-        uint64_t n    = ipow (pool.size (), K::D);
-        for (uint64_t k = 0; k < n; ++k)
-        {
-            typename K::P p = typename K::P ();
-            uint64_t      x = k;
-            for (int a = 0; a < K::D; ++a) { K::set (p, a, pool[x % pool.size ()]); x /= pool.size (); }
-            pts.push_back (p);
-        }
-    }
-    return pts;
-}
-template <class K> static void
-check_canonical_empty (Ctx& c, uint64_t gidx, const typename K::B& b, const char* how)
-{
-    using L           = std::numeric_limits<typename K::S>;
-    constexpr int D   = K::D;
-    std::string   key = std::string (how) + "." + K::name ();
-    auto desc = [&] (const char* what) { return Obj ().kv ("made_by", how).kv ("box", box_str<K> (b)).kv ("failed", what).str (); };
-    if (!b.isEmpty ()) c.fail (key + ":isEmpty_false", gidx, [&] { return desc ("isEmpty"); });
-    if (b.hasVolume ()) c.fail (key + ":hasVolume_true", gidx, [&] { return desc ("hasVolume"); });
-    if (b.isInfinite ()) c.fail (key + ":isInfinite_true", gidx, [&] { return desc ("isInfinite"); });
-    auto s = b.size ();
-    for (int a = 0; a < D; ++a)
-    {
-        if (to_d (K::get (s, a)) != 0.0) c.fail (key + ":size_nonzero", gidx, [&] { return desc ("size"); });
-        // documented representation: min = max(), max = lowest()
-        if (!(K::get (b.min, a) == L::max ()) || !(K::get (b.max, a) == L::lowest ())) c.fail (key + ":bounds", gidx, [&] { return desc ("min/max representation"); });
-    }
-    if constexpr (!K::is_interval)
-        if (b.majorAxis () >= (unsigned) D) c.fail (key + ":majorAxis_range", gidx, [&] { return desc ("majorAxis"); });
-    const auto& pts = extreme_points<K> ();
-    for (auto& p: pts)
-        if (b.intersects (p)) c.fail (key + ":contains_point", gidx, [&] { return Obj ().kv ("made_by", how).kv ("box", box_str<K> (b)).kv ("point", pt_str<K> (p)).str (); });
-    c.eval (pts.size () + 5);
-    c.cls ("empty_contains_nothing", pts.size ());
-}
-template <class K> static void
-check_infinite (Ctx& c, uint64_t gidx, const typename K::B& b, const char* how)
-{
-    using L           = std::numeric_limits<typename K::S>;
-    constexpr int D   = K::D;
-    std::string   key = std::string ("makeInfinite.") + K::name ();
-    auto desc = [&] (const char* what) { return Obj ().kv ("made_by", how).kv ("box", box_str<K> (b)).kv ("failed", what).str (); };
-    if (b.isEmpty ()) c.fail (key + ":isEmpty_true", gidx, [&] { return desc ("isEmpty"); });
-    if (!b.hasVolume ()) c.fail (key + ":hasVolume_false", gidx, [&] { return desc ("hasVolume"); });
-    if (!b.isInfinite ()) c.fail (key + ":isInfinite_false", gidx, [&] { return desc ("isInfinite"); });
-    for (int a = 0; a < D; ++a)
-        if (!(K::get (b.min, a) == L::lowest ()) || !(K::get (b.max, a) == L::max ())) c.fail (key + ":bounds", gidx, [&] { return desc ("min/max representation"); });
-    const auto& pts = extreme_points<K> ();
-    for (auto& p: pts)
-        if (!b.intersects (p)) c.fail (key + ":misses_representable_point", gidx, [&] { return Obj ().kv ("made_by", how).kv ("box", box_str<K> (b)).kv ("point", pt_str<K> (p)).str (); });
-    c.eval (pts.size () + 4);
-    c.cls ("infinite_contains_extremes", pts.size ());
-}
-template <class K> static void
-run_empty_infinite (Ctx& c, uint64_t gidx, uint64_t k)
-{
-    using S         = typename K::S;
-    using P         = typename K::P;
-    using B         = typename K::B;
-    using L         = std::numeric_limits<S>;
-    constexpr int D = K::D;
-    LBox seed;
-    decode_box ((k * 7919 + 3) % n_boxes (D, 2), D, 2, seed);
-    B b0;
-    check_canonical_empty<K> (c, gidx, b0, "default_ctor");
-    B b = mkbox<K> (seed);
-    b.makeEmpty ();
-    check_canonical_empty<K> (c, gidx, b, "makeEmpty");
-    b = mkbox<K> (seed);
-    b.makeInfinite ();
-    check_infinite<K> (c, gidx, b, "lattice box, makeInfinite");
-    b0.makeInfinite ();
-    check_infinite<K> (c, gidx, b0, "default, makeInfinite");
-    b0.makeEmpty ();
-    check_canonical_empty<K> (c, gidx, b0, "makeEmpty");
-    // partially infinite boxes: every subset of the 2D slots at its extreme, the others at a
-    // lattice value (filler 0) or one step inside the extreme (filler 1)
-    for (int filler = 0; filler < 2; ++filler)
-        for (unsigned mask = 0; mask < (1u << (2 * D)); ++mask)
-        {
-            P mn = P (), mx = P ();
-            for (int a = 0; a < D; ++a)
-            {
-                K::set (mn, a, (mask >> a) & 1 ? L::lowest () : filler ? near_extreme<S> (false) : from_i<S> (seed.lo[a]));
-                K::set (mx, a, (mask >> (D + a)) & 1 ? L::max () : filler ? near_extreme<S> (true) : from_i<S> (seed.hi[a]));
-            }
-            B    pb (mn, mx);
-            bool full = mask + 1 == (1u << (2 * D));
-            bool wante = false, wantv = true;
-            for (int a = 0; a < D; ++a)
-            {
-                long double lo = to_ld (K::get (mn, a)), hi = to_ld (K::get (mx, a));
-                if (hi < lo) wante = true;
-                if (hi <= lo) wantv = false;
-            }
-            const char* cl = full ? "all_slots_extreme" : (mask == 0 ? "no_slot_extreme" : "some_slots_extreme");
-            c.cls (cl);
-            if (pb.isInfinite () != full)
-                c.fail ("isInfinite." + K::name () + ":" + cl, gidx, [&] { return Obj ().kv ("box", box_str<K> (pb)).kv ("mask", mask).kv ("got", pb.isInfinite ()).kv ("want", full).str (); });
-            if (pb.isEmpty () != wante)
-                c.fail ("isEmpty." + K::name () + ":" + cl, gidx, [&] { return Obj ().kv ("box", box_str<K> (pb)).kv ("got", pb.isEmpty ()).kv ("want", wante).str (); });
-            if (pb.hasVolume () != wantv)
-                c.fail ("hasVolume." + K::name () + ":" + cl, gidx, [&] { return Obj ().kv ("box", box_str<K> (pb)).kv ("got", pb.hasVolume ()).kv ("want", wantv).str (); });
-            c.eval (3);
-            c.nontrivial (hash_combine (hash_combine (mask * 2 + filler, k), hash_str (K::name ().c_str ())));
-        }
-    if (k == 0) c.sample (K::name ().c_str (), [&] { return Obj ().kv ("seed_box", lbox_str (seed, D)).kv ("extreme_points", (unsigned long long) extreme_points<K> ().size ()).str (); });
-}
-template <class T> static void
-add_ei (VarTable& t)
-{
-    auto reg = [&t] (std::string nm, void (*f) (Ctx&, uint64_t, uint64_t)) { t.add (nm, 8, 8, f); };
-    reg (IKind<T>::name (), run_empty_infinite<IKind<T>>);
-    reg (VKind<Vec2<T>>::name (), run_empty_infinite<VKind<Vec2<T>>>);
-    reg (VKind<W2<T>>::name (), run_empty_infinite<VKind<W2<T>>>);
-    reg (VKind<Vec3<T>>::name (), run_empty_infinite<VKind<Vec3<T>>>);
-    reg (VKind<W3<T>>::name (), run_empty_infinite<VKind<W3<T>>>);
-    reg (VKind<Vec4<T>>::name (), run_empty_infinite<VKind<Vec4<T>>>);
-}
-static const VarTable&
-tab_ei ()
-{
-    static const VarTable t = [] {
-        VarTable t;
-#define X(T) add_ei<T> (t);
-        C13_TYPES (X)
-#undef X
-        t.seal ();
-        return t;
-    }();
-    return t;
-}
-MON_SUB ([] (Ctx& c, uint64_t b, uint64_t e) { tab_ei ().run (c, b, e); }, "empty_infinite", tab_ei ().total (false), tab_ei ().total (true))
-    .req ({"empty_contains_nothing", "infinite_contains_extremes", "all_slots_extreme", "some_slots_extreme", "no_slot_extreme"})
-    .exh ()
-    .noscale ()
-    .chunked (1)
-    .over ("default construction and makeEmpty contain none of the points {lowest,max,0,+-1,neighbours of the extremes,+-denormal,-0}^d and are isEmpty/!hasVolume/!isInfinite/size 0 with the documented min/max; makeInfinite contains all of them and isInfinite; isInfinite/isEmpty/hasVolume on every box with a subset of its 2d slots at the extreme value (others at a lattice value or one step inside the extreme); all copies and element types");
 
 MON_MAIN ("c13_box")
